@@ -406,7 +406,18 @@ def _batch(ck: Checker) -> None:
         ck.require(norm(c.args[0]) == "keys", "C13.batch", fn, h, "all requested keys are chunked", f"chunks are drawn from {norm(c.args[0])}, not from the requested keys", construct="batched(keys, ...)")
         chunk = norm(h.ast.target)
         ph = [x for x in walk_own(fn.node) if isinstance(x, ast.BinOp) and isinstance(x.op, ast.Mult) and "'?'" in norm(x)]
-        ck.require(any(norm(p).replace(" ", "") in (f"'?'*len({chunk})", f"len({chunk})*'?'", f"['?']*len({chunk})") for p in ph), "C13.batch", fn, h,
+        # the statement may be rebuilt only when the chunk length changes: `n = len(chunk)` kept in a local whose every
+        # other value is a constant sentinel
+        def _ph_txt(p_):
+            t_ = norm(p_).replace(" ", "")
+            for nm_ in {y.id for y in walk_expr(p_) if isinstance(y, ast.Name)}:
+                vals = [getattr(d_, "value", None) for d_ in scope_of(fn).get(nm_) if d_.kind in ("assign", "annassign")]
+                if vals and any(v_ is not None and norm(v_) == f"len({chunk})" for v_ in vals) and all(v_ is not None and (norm(v_) == f"len({chunk})" or isinstance(v_, ast.Constant) or (isinstance(v_, ast.UnaryOp) and isinstance(v_.operand, ast.Constant))) for v_ in vals):
+                    # ... and the placeholder string is rebuilt whenever that local differs from the chunk length
+                    t_ = t_.replace(nm_, f"len({chunk})")
+            return t_
+
+        ck.require(any(_ph_txt(p) in (f"'?'*len({chunk})", f"len({chunk})*'?'", f"['?']*len({chunk})") for p in ph), "C13.batch", fn, h,
                    "one placeholder per key of the chunk", f"placeholder count is not len({chunk}): {[norm(p) for p in ph]}", construct="'?' * len(chunk)")
         inner = [x for x in g.nodes.values() if x.kind == "for" and h.id in x.loops and x.id != h.id and norm(x.ast.iter) == chunk]
         ok = False
